@@ -81,11 +81,23 @@ def _root(a):
 
 
 class EffectAnalysis:
-    def __init__(self, model: RepoModel, f: FunctionInfo, self_is_owner=True, immutable_params=()):
+    def __init__(self, model: RepoModel, f: FunctionInfo, self_is_owner=True, immutable_params=(), depth=0):
         self.model = model
         self.f = f
         self.effects: list[Effect] = []
         self.self_is_owner = self_is_owner
+        self.returned: set = set()  # owner atoms the return value may alias (used for the callers' summaries)
+        self.depth = depth
+        # names that are integer scalars: counters of range() loops (and of enumerate): `a[:, :, i, j]` is basic indexing, a view
+        self.int_names = set()
+        for n in ast.walk(f.node):
+            it = getattr(n, "iter", None)
+            tg = getattr(n, "target", None)
+            if isinstance(n, (ast.For, ast.comprehension)) and isinstance(it, ast.Call) and isinstance(it.func, ast.Name):
+                if it.func.id == "range" and isinstance(tg, ast.Name):
+                    self.int_names.add(tg.id)
+                elif it.func.id == "enumerate" and isinstance(tg, ast.Tuple) and tg.elts and isinstance(tg.elts[0], ast.Name):
+                    self.int_names.add(tg.elts[0].id)
         st = {}
         for p in f.params:
             if p.name in ("self", "cls") and f.cls is not None:
@@ -158,6 +170,19 @@ class EffectAnalysis:
                 if cal.lib in FRESH_LIBS:
                     return {FRESH}
                 return {TOP}
+            if cal.kind == "repo" and cal.func is not None and self.depth < 2:
+                ps = returns_alias_params(self.model, cal.func, self.depth + 1)
+                if ps:
+                    try:
+                        b = self.model.bind(e, cal.func)
+                    except Exception:  # noqa: BLE001
+                        b = {}
+                    out = {TOP}
+                    for pn in ps:
+                        a = b.get(pn)
+                        if isinstance(a, ast.AST):
+                            out |= self.alias(a, st)
+                    return out
             if isinstance(e.func, ast.Attribute):
                 m = e.func.attr
                 if m in VIEW_METHODS:
@@ -167,14 +192,21 @@ class EffectAnalysis:
             return {TOP}
         return {TOP}
 
-    @staticmethod
-    def _basic_slice(sl) -> bool:
+    def _array_elements(self, a) -> bool:
+        r = _root(a)
+        if r[0] == "param":
+            p = self.f.param(r[1])
+            ann = unparse(p.annotation) if p is not None and p.annotation is not None else ""
+            return "list[np.ndarray" in ann or "list[numpy.ndarray" in ann or "list[list[np.ndarray" in ann
+        return False
+
+    def _basic_slice(self, sl) -> bool:
         if isinstance(sl, ast.Slice):
             return True
         if isinstance(sl, ast.Tuple):
+            # slices mixed with integer scalars (constants, range counters) is numpy basic indexing: a view of the array
             return any(isinstance(x, ast.Slice) for x in sl.elts) and all(
-                isinstance(x, (ast.Slice, ast.Constant)) or (isinstance(x, ast.Name)) for x in sl.elts) and all(
-                isinstance(x, ast.Slice) or isinstance(x, ast.Constant) for x in sl.elts)
+                isinstance(x, (ast.Slice, ast.Constant)) or (isinstance(x, ast.Name) and x.id in self.int_names) for x in sl.elts)
         return False
 
     # --- statements --------------------------------------------------------------------------
@@ -263,7 +295,9 @@ class EffectAnalysis:
             if isinstance(s.target, ast.Name):
                 cur = st.get(s.target.id, {TOP})
                 # in-place for ndarray / list objects
-                self.report(s, {a for a in cur if _is_owner(a) and a[0] != "elem"}, "aug-assign")
+                # an element of a container is written in place only if it is itself an array (list[np.ndarray] parameters,
+                # views of self.<array>); an element that is a number is re-bound, not mutated
+                self.report(s, {a for a in cur if _is_owner(a) and (a[0] != "elem" or self._array_elements(a))}, "aug-assign")
                 if not any(_is_owner(a) for a in cur):
                     st[s.target.id] = {FRESH} if cur == {FRESH} else set(cur)
             else:
@@ -275,6 +309,7 @@ class EffectAnalysis:
         if isinstance(s, ast.Return):
             if s.value is not None:
                 self.scan_calls(s.value, st)
+                self.returned |= {a for a in self.alias(s.value, st) if _is_owner(a)}
             return None
         if isinstance(s, ast.Raise):
             return None
@@ -381,3 +416,18 @@ def effects_on_params(model, f, params=None, self_is_owner=True):
             seen.add(k)
             uniq.append(e)
     return uniq
+
+
+def returns_alias_params(model, g: FunctionInfo, depth=1):
+    """Names of the parameters of g that its return value may alias (e.g. to_density_matrix returns a square input as it is)."""
+    cache = model.__dict__.setdefault("_ret_alias", {})
+    if g.qualname in cache:
+        return cache[g.qualname]
+    cache[g.qualname] = set()  # recursion guard
+    try:
+        ea = EffectAnalysis(model, g, self_is_owner=False, depth=depth)
+        ps = {_root(a)[1] for a in ea.returned if _root(a)[0] == "param"}
+    except Exception:  # noqa: BLE001
+        ps = set()
+    cache[g.qualname] = ps
+    return ps
